@@ -170,19 +170,19 @@ def Token.nChildren : Token → Res Nat
   | .branch _ cs => .ok cs.length
   | .leaf _ _ => .panic
 
-/-- `group_tokens(tokens, index)`; `acc` is `new_tokens`. -/
-def groupTokens (tokens : List Token) : Nat → Nat → List Token → Res Token
+/-- `group_tokens_from(tokens, index)` (after repair D18: the index at which the call stopped is returned
+    and the caller goes on behind it); `acc` is `new_tokens`. -/
+def groupTokens (tokens : List Token) : Nat → Nat → List Token → Res (Token × Nat)
   | 0, _, _ => .oof
   | fuel+1, index, acc =>
     match tokens[index]? with
-    | none => makeBranchToken .group acc
+    | none => (makeBranchToken .group acc).bind fun t => .ok (t, index)
     | some token =>
       if token.ty == .lparen then
-        (groupTokens tokens fuel (index + 1) []).bind fun t =>
-          t.nChildren.bind fun k =>
-            -- index += 1; index += k + 1; (push); index += 1
-            groupTokens tokens fuel (index + 1 + k + 1 + 1) (acc ++ [t])
-      else if token.ty == .rparen then makeBranchToken .group acc
+        (groupTokens tokens fuel (index + 1) []).bind fun r =>
+          -- index = stopped_at + 1; (push); index += 1
+          groupTokens tokens fuel (r.2 + 1 + 1) (acc ++ [r.1])
+      else if token.ty == .rparen then (makeBranchToken .group acc).bind fun t => .ok (t, index)
       else groupTokens tokens fuel (index + 1) (acc ++ [token])
 
 mutual
@@ -253,7 +253,7 @@ end
 def generateGoal (po : POps) (f : Nat) (toParse : Text) : Res Goal :=
   (tokenize toParse).bind fun tokens =>
     (groupTokens tokens (tokens.length + 2) 0 []).bind fun t0 =>
-      (groupAnd f t0).bind fun t1 =>
+      (groupAnd f t0.1).bind fun t1 =>
         (groupOr f t1).bind fun t2 => tokenTreeToGoal po f t2
 
 /-! ### `parse_rule` (`rule.rs`) -/
